@@ -237,6 +237,8 @@ class Check:
             pred = rec.get("predicate")
             if pred and detail.get("predicate") == pred:
                 return rec
+            if detail.get("predicate") and detail.get("predicate") in rec.get("predicates", ()):
+                return rec
             for pat in rec.get("case_patterns", ()):  # anchored, reviewed patterns for closed-form classes
                 if re.fullmatch(pat, case_id):
                     return rec
@@ -264,7 +266,7 @@ class Check:
             # full list for triage (scratch, not evidence)
             with open(os.path.join(self.wd, "violations.jsonl"), "w") as f:
                 for case_id, detail in self.violations:
-                    f.write(json.dumps({"case": case_id, "why": str(detail.get("why"))[:600]}) + "\n")
+                    f.write(json.dumps({"case": case_id, "predicate": detail.get("predicate"), "why": str(detail.get("why"))[:600]}) + "\n")
         if nviol and not self.replay_only:
             d = os.path.join(REPLAY, self.pid)
             os.makedirs(d, exist_ok=True)
